@@ -471,7 +471,7 @@ def c10(ctx):
     ctx.rule = ("family C10: 26 names + 2 unknown names x argument counts 0..3 (thorough 0..4) x all tuples over 11 type representatives, "
                 "arguments as literals; C10d: the same with arguments read from document fields; C10k: sort_by/max_by/min_by/map x key "
                 "expressions x arrays of length 0..3; non-trivial: at least one ill-typed, missing or extra argument (allowed = {err})")
-    eval_family(ctx, "C10", {Q: (2, 1), T: (1, 1)})
+    eval_family(ctx, "C10", {Q: (1, 1), T: (1, 1)})
     eval_family(ctx, "C10d", {Q: (1, 1), T: (1, 1)})
     eval_family(ctx, "C10k", {Q: (1, 1), T: (1, 1)})
     eval_family(ctx, "C11", {Q: (2, 7), T: (1, 1)}, mc=False)     # ill-typed / unknown / wrong-arity calls nested in every context
